@@ -483,6 +483,9 @@ var c04Hands = []c04Hand{
 	{"c04:non-finite-float-global", "{namespace h}\n{template .t}{G_INF} {G_NINF} {G_NZERO} {G_INF > 1 ? 'big' : 'small'} {G_NINF + 1}{/template}\n", `{}`},
 	{"c04:builtin-result-in-context", "{namespace h}\n/** @param x\n @param s */\n{template .t}{css isNonnull($x), n}|{css strContains($s, 'a'), m}|{isNonnull($x) ? 'y' : 'n'}|{isNonnull($x) == true}|{strContains($s, 'a') == false}|{not isNonnull($x)}|{not strContains($s, 'b')}|{isNonnull($x) and strContains($s, 'a')}{/template}\n", `{"x":1,"s":"abc"}`},
 	{"c04:builtin-result-in-context", "{namespace h}\n/** @param? x\n @param s */\n{template .t}{css isNonnull($x), n}|{css strContains($s, 'a'), m}|{isNonnull($x) == true}|{strContains($s, 'a') == false}{/template}\n", `{"s":"xyz"}`},
+	// integral floats beyond 2^53: both backends print the SHORTEST digits that round-trip (333333333333333300, 1e+21 as 1e21 …)
+	{"c04:large-integral-float", "{namespace h}\n/** @param t\n @param p\n @param f */\n{template .t}{$t / $p}|{$f * 3}|{$f * 1000.0}|{$f * $f}|{$t / 1}|{-$f * 7}|{$f + 0.5}{/template}\n", `{"t":1000000000000000000,"p":3,"f":33333333333333331.0}`},
+	{"c04:large-integral-float", "{namespace h}\n/** @param f */\n{template .t}{$f}|{$f * 2}|{$f / 2}|{$f * 1024}{/template}\n", `{"f":9007199254740993.0}`},
 	{"c04:ok:loops", "{namespace h}\n/** @param l */\n{template .t}{foreach $a in $l}{foreach $b in $l}{$a}{$b}{if isFirst($b)}F{/if}{if isLast($b)}L{/if}{index($b)}{ifempty}E{/foreach}{if isLast($a)}L{/if}|{ifempty}none{/foreach}{for $i in range(1, 7, 2)}{$i}{/for}{/template}\n", `{"l":[1,2,3]}`},
 }
 
